@@ -77,7 +77,8 @@ class AbsPDF:
 
     @contextlib.contextmanager
     def temp_params(self, var):
-        params = self.get_params()
+        with self.vm.mask_params({}):  # save the stored values, not masked ones
+            params = self.get_params()
         self.set_params(var)
         try:
             yield var
